@@ -21,6 +21,25 @@
 #define LE_COUNT(x)    cpd.le_counts[static_cast<size_t>(LE_ ## x)]
 
 
+/**
+ * Build the regular expression of a processing marker option.
+ * An invalid expression is a configuration error, not a reason to abort.
+ */
+static std::wregex make_marker_regex(const std::string &text, const char *option_name)
+{
+   try
+   {
+      return(std::wregex(std::wstring(text.cbegin(), text.cend())));
+   }
+   catch (const std::regex_error &e)
+   {
+      LOG_FMT(LERR, "The option '%s' is not a valid regular expression: %s\n",
+              option_name, e.what());
+      exit(EX_CONFIG);
+   }
+}
+
+
 constexpr static auto LCURRENT = LTOK;
 
 
@@ -2136,8 +2155,7 @@ static bool parse_ignored(TokenContext &ctx, Chunk &pc)
       {
          std::wstring pc_wstring(pc.GetStr().get().cbegin(),
                                  pc.GetStr().get().cend());
-         std::wregex  criteria(std::wstring(ontext.cbegin(),
-                                            ontext.cend()));
+         std::wregex  criteria = make_marker_regex(ontext, "enable_processing_cmt");
 
          found_enable_pattern = std::regex_search(pc_wstring.cbegin(),
                                                   pc_wstring.cend(),
@@ -2649,8 +2667,7 @@ int find_disable_processing_comment_marker(const UncText &text,
          std::wsmatch match;
          std::wstring pc_wstring(text.get().cbegin() + start_idx,
                                  text.get().cend());
-         std::wregex  criteria(std::wstring(offtext.cbegin(),
-                                            offtext.cend()));
+         std::wregex  criteria = make_marker_regex(offtext, "disable_processing_cmt");
 
          std::regex_search(pc_wstring.cbegin(),
                            pc_wstring.cend(),
@@ -2702,8 +2719,7 @@ int find_enable_processing_comment_marker(const UncText &text,
          std::wsmatch match;
          std::wstring pc_wstring(text.get().cbegin() + start_idx,
                                  text.get().cend());
-         std::wregex  criteria(std::wstring(ontext.cbegin(),
-                                            ontext.cend()));
+         std::wregex  criteria = make_marker_regex(ontext, "enable_processing_cmt");
 
          std::regex_search(pc_wstring.cbegin(),
                            pc_wstring.cend(),
